@@ -235,13 +235,19 @@ def run(ctx):
 
     # ---------------------------------------------------------------- 1. TLC: design and code, exhaustive
     small = dict(MaxBase=1, MaxTxn=2, MaxRecs=1, MaxClock=2, MaxUndo=1, MaxLayers=2, MaxNewOid=1, MaxPack=0)
-    small_temp = dict(small, MaxPack=1, MaxNewOid=0)        # the demo storage's own changes: pack is usable
     stacked = dict(MaxBase=1, MaxTxn=2, MaxRecs=1, MaxClock=1, MaxUndo=1, MaxLayers=3, MaxNewOid=0, MaxPack=0)
+    # quick: the design with one value and a moving clock, the code with two values and a stalling clock
+    # (a stall suffices for F10); thorough: both with two values, a moving clock, two records per transaction
+    design_kw = dict(small, AtomVals=('v1',))
+    code_kw = dict(small, MaxClock=1)
     if not q:
-        small = dict(MaxBase=2, MaxTxn=2, MaxRecs=2, MaxClock=2, MaxUndo=1, MaxLayers=2, MaxNewOid=1, MaxPack=1)
-        small_temp = small
+        design_kw = code_kw = dict(MaxBase=2, MaxTxn=2, MaxRecs=2, MaxClock=2, MaxUndo=1, MaxLayers=2, MaxNewOid=1, MaxPack=1)
         stacked = dict(MaxBase=1, MaxTxn=2, MaxRecs=1, MaxClock=2, MaxUndo=1, MaxLayers=3, MaxNewOid=1, MaxPack=1)
-    w = 3 if q else 4
+
+    def sized(kw, k):
+        # the demo storage's own changes: pack is usable (quick: instead of new_oid)
+        return dict(kw, MaxPack=1, MaxNewOid=0 if q else 1) if k[2] else kw
+    w = 2 if q else 4
     to = 280 if q else 3000
     jobs = []
     cex_key = ('mapping', 'file', False)
@@ -253,11 +259,11 @@ def run(ctx):
     code_keys = [k for k in keys if not q or k in (('file', 'file', False), ('mapping', 'mapping', True))]
     for k in keys:
         n = model_name(k)
-        sm = small_temp if k[2] else small
         if k in design_keys:
-            jobs.append((_job_check, (ctx.scratch, 'design-' + n, mconsts(k, mode=dd.REPAIRED, **sm), inv_design, prop_design, w, to)))
+            jobs.append((_job_check, (ctx.scratch, 'design-' + n, mconsts(k, mode=dd.REPAIRED, **sized(design_kw, k)),
+                                      inv_design, prop_design, w, to)))
         if deviating and k in code_keys:
-            jobs.append((_job_check, (ctx.scratch, 'code-' + n, mconsts(k, mode=as_tree, **sm),
+            jobs.append((_job_check, (ctx.scratch, 'code-' + n, mconsts(k, mode=as_tree, **sized(code_kw, k)),
                                       dd.INVARIANTS + ['Explained'], dd.PROPERTIES, w, to)))
     # push / pop (three layers) on one file and one temporary flavour
     for k in [x for x in keys if x in (('mapping', 'file', False), ('mapping', 'mapping', True))][:1 if q else 2]:
@@ -267,14 +273,16 @@ def run(ctx):
             jobs.append((_job_check, (ctx.scratch, 'code-stacked-' + model_name(k), mconsts(k, mode=as_tree, **stacked),
                                       dd.INVARIANTS + ['Explained'], dd.PROPERTIES, w, to)))
     # the counterexamples TLC exhibits for the code as it is (replayed below)
-    cex_c = mconsts(cex_key, mode=as_tree, PrintObs=True, **small)
+    cex_c = mconsts(cex_key, mode=as_tree, PrintObs=True, **code_kw)
     expected_cex = []
     if as_tree['TidFromChangesOnly']:
         expected_cex.append(('TidsIncreaseAcrossLayers', 'tid-order-across-layers'))
         jobs.append((_job_cex, (ctx.scratch, 'cex-tid-order', cex_c, ['TidsIncreaseAcrossLayers'], [], 2, to)))
     if as_tree['UndoUncreates']:
         expected_cex.append(('NoUndoDeviation', 'undo-uncreates-lower-object'))
-        jobs.append((_job_cex, (ctx.scratch, 'cex-undo', cex_c, ['NoUndoDeviation'], [], 2, to)))
+        # (needs a clock that moves: with a stalled clock every state over a non-empty base is a tid-order state)
+        jobs.append((_job_cex, (ctx.scratch, 'cex-undo', dict(cex_c, MaxClock=2, AtomVals=('v1',) if q else cex_c['AtomVals']),
+                                ['NoUndoDeviation'], [], 2, to)))
     if as_tree['OidProbeByLoad']:
         expected_cex.append(('OidFreshBothLayers', 'new_oid-reissues-uncreated-oid'))
         jobs.append((_job_cex, (ctx.scratch, 'cex-new_oid', cex_c, [], ['OidFreshBothLayers'], 2, to)))
